@@ -216,7 +216,7 @@ def manifest_replay_segment(rep, tier, seed):
     """Replaying a MANIFEST reproduces the layout: clean reopen cycles (incl. MANIFEST reuse growing past a 32 KiB block
     boundary, data in the deepest level) must succeed and report the same layout as before the close."""
     import k2check, histgen
-    k2check.run_k2(rep, 'C17', tier, seed, 'c14', 2 if tier == 'quick' else 40, 60, extra_histories=histgen.corpus_histories()[-3:])
+    k2check.run_k2(rep, 'C17', tier, seed, 'c14', 2 if tier == 'quick' else 40, 60, extra_histories=[histgen.corpus_histories()[i] for i in (3, 4, -1)])
 
 def replay(rep, path):
     r = json.load(open(path))
